@@ -187,6 +187,13 @@ def run_impl(lines, timeout=10, extra_modules=()):
     env_ok = os.environ.get("PYTHONHASHSEED") == "0"
     if not env_ok:
         raise RuntimeError("run with PYTHONHASHSEED=0 (./check sets it)")
+    # pre-flight: a worker that dies while importing would be respawned forever
+    pre = subprocess.run([sys.executable, "-c",
+                          "import sys; sys.path.insert(0, %r); import impl" % os.path.join(VERIF, "tools")],
+                         capture_output=True, text=True,
+                         env=dict(os.environ, ISO_REPO=REPO))
+    if pre.returncode != 0:
+        raise RuntimeError("the implementation cannot be imported: " + pre.stderr[-800:])
     size = max(1, min(500, len(lines) // (NPROC * 4) + 1))
     chunks = [(lines[i:i + size], timeout) for i in range(0, len(lines), size)]
     ctx = multiprocessing.get_context("spawn")
